@@ -40,7 +40,8 @@ def _trav_doc():
     p2 = El("path", {"d": pd(("M", (1, 1))), "transform": "tB", "clip-path": "url(#c)", "fill": "blue"}, name="p2")
     p3 = El("path", {"d": pd(("M", (2, 2))), "stroke": "green"}, name="p3")
     g2 = El("g", {"clip-path": "none", "fill": "yellow"}, [p3], name="g2")
-    g1 = El("g", {"transform": "tA", "opacity": "0.5", "clip-path": "url(#c)", "stroke-width": "3"}, [p1, El(ETREE_COMMENT, name="c1"), p2, g2], name="g1")
+    p2b = El("path", {"d": pd(("M", (1, 2))), "transform": "tD", "clip-path": "url(#c)"}, name="p2b")
+    g1 = El("g", {"transform": "tA", "opacity": "0.5", "clip-path": "url(#c)", "stroke-width": "3"}, [p1, El(ETREE_COMMENT, name="c1"), p2, p2b, g2], name="g1")
     p4 = El("path", {"d": pd(("M", (3, 3))), "clip-path": ""}, name="p4")
     clip = El("clipPath", {"id": "c"}, [El("rect", {"width": "4", "height": "3"}, name="cr")], name="clip")
     defs = El("defs", {}, [clip], name="defs")
@@ -117,8 +118,8 @@ def check_traverse(repo: Repo, rep: Report, rules: Dict[str, str]):
                 bad["clips"].append(f"{name}: clips {got}, expected the ancestors' clips followed by its own resolved with its own CTM {clips}")
         if "attrib" in rules:
             at = c.f["attrib"]
-            exp_fill = {"root": "red", "defs": "red", "clip": "red", "cr": "red", "g1": "red", "p1": "red", "p2": "blue", "g2": "yellow", "p3": "yellow", "p4": "red"}[name]
-            exp_sw = "3" if name in ("g1", "p1", "p2", "g2", "p3") else "1"
+            exp_fill = {"root": "red", "defs": "red", "clip": "red", "cr": "red", "g1": "red", "p1": "red", "p2": "blue", "p2b": "red", "g2": "yellow", "p3": "yellow", "p4": "red"}[name]
+            exp_sw = "3" if name in ("g1", "p1", "p2", "p2b", "g2", "p3") else "1"
             exp_stroke = "green" if name == "p3" else "none"
             if at.get("fill") != exp_fill or str(at.get("stroke-width")) != exp_sw or at.get("stroke") != exp_stroke:
                 bad["attrib"].append(f"{name}: context has fill={at.get('fill')} stroke={at.get('stroke')} stroke-width={at.get('stroke-width')}; cascade gives fill={exp_fill} stroke={exp_stroke} stroke-width={exp_sw}")
@@ -146,6 +147,38 @@ def check_traverse(repo: Repo, rep: Report, rules: Dict[str, str]):
 
 
 # =========================================================================================== clip region
+def check_clip_cascade(repo: Repo, rep: Report, rule: str):
+    """Children of a clipPath are rendered with the properties the cascade gives them: clip-rule set on the clipPath
+    element applies to children that do not set their own."""
+    svg = repo["svg"]
+    F = "svg.SVG._resolve_clip_path"
+
+    def build():
+        c = El("clipPath", {"id": "c", "clip-rule": "evenodd"},
+               [El("rect", {"width": "4", "height": "3", "clip-rule": "nonzero"}, name="r1"), El("path", {"d": pd(("M", (0, 0)), ("L", (1, 1)))}, name="pth")], name="c")
+        root = El("svg", {"viewBox": "0 0 10 10"}, [El("defs", {}, [c]), El("path", {"d": pd(("M", (5, 5)))})], name="root")
+        return ([make_svg(root), "url(#c)", AffTok.atom("CTM")], {})
+
+    outs = ok_outcomes(run(repo, "SVG._resolve_clip_path", build), F)
+    fn = svg.func("SVG._resolve_clip_path")
+    for o in outs:
+        if o.raised:
+            rep.fail(rule, F, "clip-rule on the clipPath element", f"raises {o.raised}", svg, fn)
+            return
+        g = unseq(geom_of(o.value)) if isinstance(o.value, Rec) else None
+        if not (isinstance(g, GeomTok) and g.term[0] == "union"):
+            raise AnalysisError(f"{F}: unexpected clip term {g!r}"[:200])
+        rules = tuple(g.term[2])
+        if rules != ("nonzero", "evenodd"):
+            calls = [c for c in __import__("ast").walk(fn) if isinstance(c, __import__("ast").Call) and getattr(c.func, "id", None) == "from_element"]
+            rep.fail(rule, F, "clip-rule set on the clipPath element is not inherited by its children",
+                     f"children of <clipPath clip-rule='evenodd'> (one with its own clip-rule='nonzero', one without) are interpreted under {rules}; "
+                     "the cascade gives (nonzero, evenodd): inherited properties set on the clipPath element or its ancestors are ignored when the children are read",
+                     svg, calls[0] if calls else fn)
+            return
+    rep.ok(rule, F + " [cascade]", "children of a clipPath inherit clip-rule from the clipPath element", True)
+
+
 def check_resolve_clip_path(repo: Repo, rep: Report, rule: str):
     svg = repo["svg"]
     F = "svg.SVG._resolve_clip_path"
@@ -216,6 +249,8 @@ def check_resolve_clip_path(repo: Repo, rep: Report, rule: str):
 
 # =========================================================================================== _simplify
 def _simplify_doc():
+    """Scenario 1: a translucent group (kept) with a clipped evenodd path and a stroked transformed path, an opaque
+    single-child group (flattened), a transformed gradient-filled rect, a plain gradient-filled path, junk in defs."""
     clip = El("clipPath", {"id": "c"}, [El("rect", {"width": "4", "height": "3"}, name="cr")], name="clip")
     g_used = El("linearGradient", {"id": "g1", "x1": "0.25", "gradientTransform": "tG"}, [El("stop", {"offset": "0", "id": "s0"}), El("stop", {"offset": "1"})], name="g1")
     g_unused = El("radialGradient", {"id": "gU"}, [El("stop", {"offset": "0"})], name="gU")
@@ -232,34 +267,47 @@ def _simplify_doc():
     return root
 
 
-class _ClipRec:
-    pass
+def _simplify_doc2():
+    """Scenario 2: stacked clips (group clip + own clip), siblings sharing one clipPath under different transforms,
+    a stroked clipped path; a second defs further down."""
+    c = El("clipPath", {"id": "c"}, [El("rect", {"width": "4", "height": "3"}, name="cr")], name="c")
+    c2 = El("clipPath", {"id": "c2"}, [El("circle", {"r": "5"}, name="cc")], name="c2")
+    q1 = El("path", {"d": pd(("M", (1, 1)), ("L", (2, 2))), "clip-path": "url(#c)", "stroke": "blue", "id": "q1"}, name="q1")
+    q2 = El("path", {"d": pd(("M", (3, 3)), ("L", (4, 4))), "clip-path": "url(#c)", "transform": "tB", "id": "q2"}, name="q2")
+    gq = El("g", {"clip-path": "url(#c2)", "transform": "tA", "id": "gq"}, [q1, q2], name="gq")
+    q3 = El("path", {"d": pd(("M", (5, 5)), ("L", (6, 6))), "id": "q3", "clip-path": "none"}, name="q3")
+    c3 = El("clipPath", {"id": "c3"}, [El("path", {"d": pd(("M", (0, 0)), ("L", (8, 0)), ("L", (6, 8)), ("L", (2, 8)), ("Z", ()))}, name="trap")], name="c3")
+    q4 = El("path", {"d": pd(("M", (7, 7)), ("L", (8, 8)), ("L", (7, 8)), ("Z", ())), "id": "q4", "clip-path": "url(#c3)"}, name="q4")
+    root = El("svg", {"viewBox": "0 0 10 10"}, [gq, El("defs", {}, [c, c2, c3], name="defs"), q3, q4], name="root")
+    return root
 
 
-def run_simplify(repo: Repo):
-    holder = {}
+def _simplify_doc3():
+    """Scenario 3: gradients.  Two shapes with the same gradient fill and the same transform but different geometry;
+    a gradient used only from inside a kept group; a gradient used by an untransformed shape; a template chain."""
+    def grad(i, **kw):
+        return El("linearGradient", dict({"id": i}, **kw), [El("stop", {"offset": "0"}), El("stop", {"offset": "1"})], name=i)
+    tmpl = El("linearGradient", {"id": "t0", "x2": "0.5", "gradientUnits": "userSpaceOnUse"}, [El("stop", {"offset": "0.3"})], name="t0")
+    h1 = El("linearGradient", {"id": "h1", "{http://www.w3.org/1999/xlink}href": "#t0", "x1": "0.1"}, [], name="h1")
+    defs = El("defs", {}, [grad("g1"), grad("g3"), grad("g4"), tmpl, h1], name="defs")
+    ra = El("rect", {"x": "1", "width": "2", "height": "3", "fill": "url(#g1)", "transform": "tR", "id": "Ra"}, name="Ra")
+    rb = El("rect", {"x": "5", "width": "4", "height": "1", "fill": "url(#g1)", "transform": "tR", "id": "Rb"}, name="Rb")
+    k1 = El("path", {"d": pd(("M", (1, 1)), ("L", (2, 2))), "fill": "url(#g3)", "id": "k1"}, name="k1")
+    k2 = El("path", {"d": pd(("M", (3, 3)), ("L", (4, 4))), "id": "k2"}, name="k2")
+    gk = El("g", {"opacity": "0.25", "id": "gk"}, [k1, k2], name="gk")
+    u = El("path", {"d": pd(("M", (5, 5)), ("L", (6, 6))), "fill": "url(#g4)", "id": "u"}, name="u")
+    w = El("path", {"d": pd(("M", (7, 7)), ("L", (8, 8))), "fill": "url(#h1)", "id": "w"}, name="w")
+    root = El("svg", {"viewBox": "0 0 10 10"}, [defs, ra, rb, gk, u, w], name="root")
+    return root
 
+
+def run_simplify(repo: Repo, doc=None):
     def build():
-        root = _simplify_doc()
-        holder["root"] = root
+        root = (doc or _simplify_doc)()
         return ([make_svg(root)], {})
 
-    def extra(it):
-        def stroke(i, a, k):
-            shape = a[1]
-            it.trace.add("stroke", geom_of(shape))
-            sp = Rec(shape.cls, dict(shape.f), True)
-            sp.f["d"] = PathData([("G", (GeomTok("strokeof", geom_of(shape)),))])
-            sp.f["fill"], sp.f["stroke"] = shape.f["stroke"], "none"
-            fp = shape
-            fp.f["id"] = ""
-            sp.f["id"] = ""
-            return (fp, sp)
-
-        it.hooks[("svg", "SVG._stroke")] = stroke
-
-    outs = ok_outcomes(run(repo, "SVG._simplify", build, setup_extra=extra, max_paths=128), "svg.SVG._simplify")
-    return outs, holder
+    outs = ok_outcomes(run(repo, "SVG._simplify", build, max_paths=128), "svg.SVG._simplify")
+    return outs
 
 
 def _paths_under(el):
@@ -273,189 +321,440 @@ def _geom(n):
     return d
 
 
-def _spine(g) -> List[str]:
-    return g.flat() if isinstance(g, GeomTok) else []
+def unseq(g):
+    while isinstance(g, GeomTok) and g.term[0] == "seq":
+        g = g.term[1]
+    return g
 
 
-def check_simplify(repo: Repo, rep: Report, rules: Dict[str, str]):
-    """rules keys: structure, transform, clip, stroke-order, gradient, refs, document-order"""
-    svg = repo["svg"]
-    F = "svg.SVG._simplify"
-    rep.saw(F, "svg.SVG._resolve_clip_path", "svg.SVG._transformed_gradient", "svg.SVG._apply_gradient_template", "svg.SVG._apply_gradient_translation",
-            "svg.SVG._remove_orphaned_gradients", "svg.SVG._add_to_defs", "svg.to_element", "svg.from_element", "svg._try_remove_group", "svg._inherit_attrib")
-    outs, holder = run_simplify(repo)
-    fn = svg.func("SVG._simplify")
-    probs: Dict[str, List[str]] = {k: [] for k in ("structure", "transform", "clip", "stroke-order", "gradient", "refs", "document-order")}
-    done = 0
-    for o in outs:
-        if o.raised:
-            for k in probs:
-                probs[k].append(f"_simplify raises {o.raised} ({o.raise_msg}) on the schematic document")
-            continue
-        done += 1
-    # the tree of the last completed run is in holder (all paths produce the same structure up to symbolic rect corner branches)
-    root = holder["root"]
+class Piece:
+    """Decomposition of an output geometry term: isect(xf(stroke?(base)), clips...)."""
+
+    def __init__(self, g):
+        self.raw = g
+        self.clips, self.rules, self.app, self.stroke, self.base, self.shape_of_order = [], (), None, None, None, []
+        g = unseq(g)
+        order = []
+        while isinstance(g, GeomTok) and g.term[0] in ("isect", "xf", "stroke", "round"):
+            k = g.term[0]
+            order.append(k)
+            if k == "isect":
+                ops = g.term[1]
+                self.clips = list(ops[1:]) + self.clips
+                self.rules = tuple(g.term[2]) if not self.rules else self.rules
+                g = unseq(ops[0])
+            elif k == "xf":
+                self.app = (g.term[2].app if isinstance(g.term[2], AffTok) else ("?",)) + (self.app or ())
+                g = unseq(g.term[1])
+            elif k == "stroke":
+                self.stroke = g.term[2]
+                g = unseq(g.term[1])
+            else:
+                g = unseq(g.term[1])
+        self.base = g
+        self.order = list(reversed(order))  # innermost operation first
+
+    def base_text(self):
+        return repr(self.base)
+
+
+def clip_children(c):
+    """[(shape text, app)] of a resolved clip operand (union of transformed children, possibly intersected)."""
+    c = unseq(c)
+    out = []
+    if isinstance(c, GeomTok) and c.term[0] == "isect":
+        for op in c.term[1]:
+            out += clip_children(op)
+        return out
+    if isinstance(c, GeomTok) and c.term[0] == "union":
+        for kid in c.term[1]:
+            k = Piece(kid)
+            out.append((k.base_text(), k.app))
+        return out
+    return [(repr(c), None)]
+
+
+def _by_id(root):
+    out = {}
+    for n in root.subtree():
+        if isinstance(n.tag, str) and "id" in n.attrib:
+            out.setdefault(str(n.attrib["id"]), []).append(n)
+    return out
+
+
+_STROKE_DEFAULTS = {"stroke": "none", "stroke-width": "1", "stroke-linecap": "butt", "stroke-linejoin": "miter", "stroke-miterlimit": "4",
+                    "stroke-dasharray": "none", "stroke-dashoffset": "0", "stroke-opacity": "1"}
+_CATS = ("structure", "transform", "clip", "stroke-order", "stroke-args", "gradient", "refs", "document-order")
+
+
+def _grammar_facts(root, P):
+    """Facts every simplified document must satisfy (README grammar)."""
     els = [n for n in root.subtree() if isinstance(n.tag, str)]
-    by_id = {}
-    for n in els:
-        if "id" in n.attrib:
-            by_id.setdefault(n.attrib["id"], []).append(n)
-    # ---- structure (C01)
     kids = [c for c in root.children if isinstance(c.tag, str)]
     if not kids or kids[0].local() != "defs":
-        probs["structure"].append(f"first child of the root is {kids[0].local() if kids else None}, not defs")
+        P("structure", f"first child of the root is {kids[0].local() if kids else None}, not defs")
     if sum(1 for n in els if n.local() == "defs") != 1:
-        probs["structure"].append("the document does not have exactly one defs")
+        P("structure", "the document does not have exactly one defs")
     defs = next((n for n in els if n.local() == "defs"), None)
     if defs is not None:
         non_grad = [c.local() for c in defs.children if c.local() not in ("linearGradient", "radialGradient")]
         if non_grad:
-            probs["structure"].append(f"defs keeps non-gradient children {non_grad}")
+            P("structure", f"defs keeps non-gradient children {non_grad}")
         for gch in defs.children:
             if "id" not in gch.attrib:
-                probs["structure"].append("a gradient without id stays in defs")
+                P("structure", "a gradient without id stays in defs")
             if any("href" in k for k in gch.attrib):
-                probs["structure"].append("a gradient keeps an href")
+                P("structure", "a gradient keeps an href")
     for n in els:
         for a in ("clip-path", "transform"):
             if a in n.attrib:
-                probs["structure"].append(f"<{n.local()} id={n.attrib.get('id')}> keeps attribute {a}")
+                P("structure", f"<{n.local()} id={n.attrib.get('id')}> keeps attribute {a}")
         if n.local() in ("clipPath", "use", "svg") and n is not root:
-            probs["structure"].append(f"a <{n.local()}> element survives")
+            P("structure", f"a <{n.local()}> element survives")
+        if n.local() in ("linearGradient", "radialGradient") and (n.parent is None or n.parent.local() != "defs"):
+            P("structure", "a gradient lives outside defs")
     inheritable = {"fill", "stroke", "stroke-linecap", "fill-rule", "clip-rule", "opacity", "display", "stroke-width", "style"}
     left = sorted(inheritable & set(root.attrib))
     if left:
-        probs["structure"].append(f"the root keeps inheritable presentation attributes {left}")
-    groups = [n for n in els if n.local() == "g"]
-    for g in groups:
+        P("structure", f"the root keeps inheritable presentation attributes {left}")
+    for g in [n for n in els if n.local() == "g"]:
         n_ch = len([c for c in g.children if isinstance(c.tag, str)])
         if set(g.attrib) != {"opacity"} or n_ch < 2:
-            probs["structure"].append(f"a kept group has attributes {sorted(g.attrib)} and {n_ch} children (only opacity, at least two children allowed)")
-    if not groups:
-        probs["structure"].append("the translucent group with several children was flattened")
-    if any(n.attrib.get("id") == "gb" or n.attrib.get("data-name") for n in els):
-        probs["structure"].append("the opaque single-child group was not flattened")
+            P("structure", f"a kept group has attributes {sorted(g.attrib)} and {n_ch} children (only opacity, at least two children allowed)")
     for n in _paths_under(root):
         for a in n.attrib:
-            if a.startswith("stroke") and n.attrib[a] not in ("none",):
-                probs["structure"].append(f"output shape {n.attrib.get('id')} keeps stroke attribute {a}={n.attrib[a]}")
-    # ---- per-shape geometry
+            if a.startswith("stroke") and str(n.attrib[a]) != _STROKE_DEFAULTS.get(a):
+                P("structure", f"output shape {n.attrib.get('id')} keeps stroke attribute {a}={n.attrib[a]}")
+    ids = _by_id(root)
+    for gid, lst in ids.items():
+        if len(lst) > 1:
+            P("refs", f"id {gid!r} occurs {len(lst)} times")
+    grads = {str(c.attrib.get("id")) for c in (defs.children if defs is not None else [])}
+    for n in _paths_under(root):
+        f = str(n.attrib.get("fill", ""))
+        if f.startswith("url(#") and f[5:-1] not in grads:
+            P("refs", f"fill {f} of {n.attrib.get('id')} points at no gradient in defs (defs has {sorted(grads)})")
+    used = {str(n.attrib.get("fill", ""))[5:-1] for n in _paths_under(root) if str(n.attrib.get("fill", "")).startswith("url(#")}
+    for gid in sorted(grads - used):
+        P("refs", f"gradient {gid} stays in defs although no shape references it")
+    return defs
+
+
+def _check_doc1(root, P):
+    defs = _grammar_facts(root, P)
+    els = [n for n in root.subtree() if isinstance(n.tag, str)]
     shapes = [n for n in _paths_under(root) if n.parent is not None and n.parent.local() != "defs"]
-    def find(pred):
-        return [n for n in shapes if pred(n)]
-    p1 = find(lambda n: n.attrib.get("id") == "p1")
+    groups = [n for n in els if n.local() == "g"]
+    if not groups:
+        P("structure", "the translucent group with several children was flattened")
+    if any(n.attrib.get("id") == "gb" or n.attrib.get("data-name") for n in els):
+        P("structure", "the opaque single-child group was not flattened")
+    pieces = {id(n): Piece(_geom(n)) for n in shapes}
+    def find(base_part):
+        return [n for n in shapes if base_part in pieces[id(n)].base_text()]
+    p1 = find("(a, b)")
     if len(p1) != 1:
-        probs["clip"].append(f"the clipped path p1 appears {len(p1)} times")
+        P("clip", f"the clipped path p1 yields {len(p1)} pieces (1 expected)")
     else:
-        g = _geom(p1[0])
-        sp = _spine(g)
-        if not isinstance(g, GeomTok) or g.term[0] != "isect":
-            probs["clip"].append(f"p1 is not the intersection of its geometry with its clip: {g!r}"[:300])
-        else:
-            ops, rules_ = g.term[1], g.term[2]
-            if len(ops) != 2:
-                probs["clip"].append(f"p1 is intersected with {len(ops) - 1} clips (1 expected)")
-            first = ops[0].term[1] if isinstance(ops[0], GeomTok) and ops[0].term[0] == "seq" else ops[0]
-            if not (isinstance(first, GeomTok) and first.term[0] == "xf"):
-                probs["clip"].append("the piece is clipped before it is transformed into the clip's coordinate system")
-                probs["transform"].append("p1 is not mapped through its accumulated transform")
-            else:
-                app = first.term[2].app
-                if app != ("parse(tA)",):
-                    probs["transform"].append(f"p1 is transformed by {app}; its accumulated transform is (parse(tA),)")
-            if tuple(rules_)[:1] != ("evenodd",):
-                probs["clip"].append(f"the clipped shape is interpreted under rule {tuple(rules_)[:1]}, its own fill-rule is evenodd")
-            if len(rules_) > 1 and rules_[1] != "nonzero":
-                probs["clip"].append(f"the clip operand is interpreted under {rules_[1]!r}, the clip's clip-rule is nonzero")
-            if len(ops) > 1 and "parse(tA)" not in repr(ops[1]):
-                probs["clip"].append("the clip region was not resolved in the coordinate system of the clipped element (its CTM)")
+        pc = pieces[id(p1[0])]
+        if len(pc.clips) != 1:
+            P("clip", f"p1 is intersected with {len(pc.clips)} clips; it has exactly one")
+        if pc.app != ("parse(tA)",):
+            P("transform", f"p1 is transformed by {pc.app}; its accumulated transform is (parse(tA),)")
+        if pc.order[:2] != ["xf", "isect"] and pc.clips:
+            P("clip", f"p1: operations applied innermost-first are {pc.order}; the piece must be transformed into the clip's coordinate system before it is intersected")
+        if pc.clips:
+            if pc.rules[:1] != ("evenodd",):
+                P("clip", f"the clipped shape is interpreted under rule {pc.rules[:1]}; its own fill-rule is evenodd")
+            if pc.rules[1:] != ("nonzero",):
+                P("clip", f"the clip operand is interpreted under {pc.rules[1:]}; the resolved clip's clip-rule is nonzero")
+            kids = clip_children(pc.clips[0])
+            if [k[1] for k in kids] != [("parse(tA)",)] or "SVGRect" not in kids[0][0]:
+                P("clip", f"the clip region of p1 is {kids}; expected the clipPath's rect in the coordinate system of p1 (parse(tA),)")
         if p1[0].attrib.get("fill-rule", "nonzero") != "nonzero":
-            probs["clip"].append("a clipped path is not marked nonzero although Skia's result is")
-    p2 = find(lambda n: "strokeof" in repr(_geom(n)) or (isinstance(_geom(n), GeomTok) and "[('M', (1, 1)), ('L', (2, 2))]" in repr(_geom(n))))
-    if len(p2) != 2:
-        probs["stroke-order"].append(f"the stroked path yields {len(p2)} pieces (fill piece and stroke piece expected)")
-    else:
-        gi = [_geom(n) for n in p2]
-        if "strokeof" in repr(gi[0]) or "strokeof" not in repr(gi[1]):
-            probs["document-order"].append("the stroke piece does not follow the fill piece in document order")
-        for n, g in zip(p2, gi):
-            if not (isinstance(g, GeomTok) and g.term[0] == "xf"):
-                probs["transform"].append(f"a piece of the stroked path is not mapped through its accumulated transform: {g!r}"[:200])
-                continue
-            if g.term[2].app != ("parse(tB)", "parse(tA)"):
-                probs["transform"].append(f"a piece of p2 is transformed by {g.term[2].app}; own transform first, then the group's: (parse(tB), parse(tA))")
-            inner = g.term[1]
-            if "xf" in repr(inner):
-                probs["stroke-order"].append("the outline was computed after (not before) the transform")
-        st = next((g for g in gi if "strokeof" in repr(g)), None)
-        if st is not None and "xf" in repr(st.term[1].term[1] if isinstance(st.term[1], GeomTok) and len(st.term[1].term) > 1 else ""):
-            probs["stroke-order"].append("stroke outline computed from transformed geometry")
-        if p2[0].parent is not p2[1].parent or p2[0].parent.local() != "g":
-            probs["document-order"].append("the pieces of the stroked path left their group")
-    # order inside the kept group and at top level
+            P("clip", "a clipped path is not marked nonzero although Skia's result is")
+        if p1[0].attrib.get("fill") != "red":
+            P("structure", f"p1 lost the fill inherited from the root (fill={p1[0].attrib.get('fill')})")
+    p2 = find("(1, 1)")
+    fillp = [n for n in p2 if pieces[id(n)].stroke is None]
+    strokep = [n for n in p2 if pieces[id(n)].stroke is not None]
+    if len(strokep) != 1 or len(fillp) > 1:
+        P("stroke-order", f"the stroked path yields {len(fillp)} fill pieces and {len(strokep)} stroke pieces")
+    for n in p2:
+        pc = pieces[id(n)]
+        if pc.app != ("parse(tB)", "parse(tA)"):
+            P("transform", f"a piece of p2 is transformed by {pc.app}; own transform first, then the group's: (parse(tB), parse(tA))")
+        if pc.stroke is not None and pc.order[:2] != ["stroke", "xf"]:
+            P("stroke-order", f"operations on the stroke piece, innermost first, are {pc.order}; the outline must be computed in the shape's own coordinate system, before the transform")
+        if pc.stroke is not None:
+            args = pc.stroke
+            if not (len(args) >= 7 and args[0] == "round" and args[1] == "miter" and args[2] == 2 and args[3] == 4 and args[5] in ([], ()) and args[6] == 0):
+                P("stroke-args", f"Skia is asked to stroke with {args}; the shape's cascade gives cap=round (inherited), join=miter, width=2, miterlimit=4, no dashes")
+            if n.attrib.get("fill") != "blue":
+                P("stroke-args", f"the stroke piece is filled with {n.attrib.get('fill')}, the stroke paint is blue")
+        if n.parent is None or n.parent.local() != "g":
+            P("document-order", "a piece of the stroked path left its group")
+    if fillp and strokep:
+        sib = [c for c in fillp[0].parent.children]
+        if fillp[0].parent is not strokep[0].parent or sib.index(fillp[0]) > sib.index(strokep[0]):
+            P("document-order", "the stroke piece does not follow the fill piece in document order")
     if groups:
-        ids = [("stroke" if "strokeof" in repr(_geom(c)) else c.attrib.get("id", "?")) for c in groups[0].children if isinstance(c.tag, str)]
-        if ids[:1] != ["p1"] or ids[-1:] != ["stroke"] or len(ids) != 3:
-            probs["document-order"].append(f"children of the kept group are {ids}; document order is p1, fill piece of p2, stroke piece of p2")
-    top = [c.attrib.get("id", c.local()) for c in root.children if isinstance(c.tag, str)]
-    if top != ["defs", top[1] if len(top) > 1 else None, "p5", "R", "p6"] or (len(top) > 1 and root.children[1].local() != "g"):
-        probs["document-order"].append(f"top-level order is {top}; expected defs, the kept group, p5, R, p6")
-    p5 = find(lambda n: n.attrib.get("id") == "p5")
+        g = groups[0]
+        seq = []
+        for c in g.children:
+            if not isinstance(c.tag, str):
+                continue
+            pc = pieces.get(id(c))
+            seq.append("p1" if pc and "(a, b)" in pc.base_text() else ("p2-stroke" if pc and pc.stroke is not None else ("p2-fill" if pc and "(1, 1)" in pc.base_text() else "?")))
+        if seq not in (["p1", "p2-fill", "p2-stroke"], ["p1", "p2-stroke"]):
+            P("document-order", f"children of the kept group are {seq}; document order is p1, fill piece of p2, stroke piece of p2")
+    top = [str(c.attrib.get("id", c.local())) for c in root.children if isinstance(c.tag, str)]
+    if len(top) != 5 or top[0] != "defs" or root.children[1].local() != "g" or top[2:] != ["p5", "R", "p6"]:
+        P("document-order", f"top-level order is {top}; expected defs, the kept group, p5, R, p6")
+    p5 = [n for n in shapes if n.attrib.get("id") == "p5"]
     if len(p5) == 1 and p5[0].attrib.get("fill") != "green":
-        probs["structure"].append(f"p5 lost the fill inherited from its flattened group (fill={p5[0].attrib.get('fill')})")
-    if len(p5) == 1 and p5[0].attrib.get("stroke-linecap") not in ("round", None):
-        probs["structure"].append("p5 lost the root's inherited stroke-linecap")
-    # ---- gradients / references (C06, C08)
-    R = find(lambda n: n.attrib.get("id") == "R")
-    grads = {c.attrib.get("id"): c for c in (defs.children if defs is not None else [])}
+        P("structure", f"p5 lost the fill inherited from its flattened group (fill={p5[0].attrib.get('fill')})")
+    R = [n for n in shapes if n.attrib.get("id") == "R"]
+    grads = {str(c.attrib.get("id")): c for c in (defs.children if defs is not None else [])}
     if len(R) != 1:
-        probs["gradient"].append(f"the transformed gradient-filled rect appears {len(R)} times")
+        P("gradient", f"the transformed gradient-filled rect appears {len(R)} times")
     else:
-        fill = R[0].attrib.get("fill", "")
-        g = _geom(R[0])
-        if not (isinstance(g, GeomTok) and g.term[0] == "xf" and g.term[2].app == ("parse(tR)",)):
-            probs["transform"].append(f"R is not mapped through its transform: {g!r}"[:200])
+        pc = pieces[id(R[0])]
+        if pc.app != ("parse(tR)",):
+            P("transform", f"R is transformed by {pc.app}, its transform is (parse(tR),)")
+        fill = str(R[0].attrib.get("fill", ""))
         if fill == "url(#g1)":
-            probs["gradient"].append("a transformed shape keeps referencing the untransformed gradient")
+            P("gradient", "a transformed shape keeps referencing the untransformed gradient")
         tgt = fill[5:-1] if fill.startswith("url(#") else None
-        if tgt not in grads:
-            probs["refs"].append(f"R's fill {fill!r} points at no gradient in defs (defs has {sorted(grads)})")
-        else:
-            clone = grads[tgt]
-            gt = clone.attrib.get("gradientTransform")
-            tok = parse_affine(gt) if isinstance(gt, str) else gt
-            app = tok.app if isinstance(tok, AffTok) else ()
-            flat = " ".join(app)
-            want_seq = ["parse(tG)", "rect_to_rect", "parse(tR)"]
-            pos = [flat.find(w) for w in want_seq]
-            if -1 in pos or pos != sorted(pos):
-                probs["gradient"].append(f"clone's gradientTransform is {app}; it must apply the gradient's own transform, then unit-square->bbox, then the shape's CTM")
-            if "bbx1<" not in flat or "'xf'" in flat or "SVGRect" not in flat:
-                probs["gradient"].append("the bounding box folded into the clone is not that of the untransformed shape")
-            if clone.attrib.get("gradientUnits") != "userSpaceOnUse":
-                probs["gradient"].append("clone of a bounding-box gradient is not switched to userSpaceOnUse")
-            if len([c for c in clone.children if c.local() == "stop"]) != 2:
-                probs["gradient"].append("clone lost the stops of the original")
-            if tgt == "g1":
-                probs["refs"].append("the clone reuses the original id")
-    for gid, lst in by_id.items():
-        if len(lst) > 1 and gid not in ("s0",):
-            probs["refs"].append(f"id {gid!r} occurs {len(lst)} times")
-    if "gU" in grads:
-        probs["refs"].append("a gradient no shape references (gU) stays in defs")
-    if "g1" in grads and len(R) == 1 and R[0].attrib.get("fill") != "url(#g1)":
-        probs["refs"].append("the original gradient g1 stays in defs although its only user now references the clone")
+        if tgt in grads:
+            _check_clone(grads[tgt], "parse(tG)", "parse(tR)", "('x', '1')", P, stops=2)
     if "g2" not in grads:
-        probs["refs"].append("gradient g2 was removed although p6 references it")
-    used = {n.attrib["fill"][5:-1] for n in shapes if str(n.attrib.get("fill", "")).startswith("url(#")}
-    for u in used:
-        if u not in grads:
-            probs["refs"].append(f"fill url(#{u}) dangles")
+        P("refs", "gradient g2 was removed although p6 references it")
+    if "g1" in grads:
+        P("refs", "the original gradient g1 stays in defs although its only user now references the clone")
+
+
+def _check_clone(clone, own, ctm, bbox_marker, P, stops):
+    gt = clone.attrib.get("gradientTransform")
+    tok = parse_affine(gt) if isinstance(gt, str) else gt
+    flat = " ".join(tok.app) if isinstance(tok, AffTok) else ""
+    want = [w for w in (own, "rect_to_rect", ctm) if w]
+    pos = [flat.find(w) for w in want]
+    if -1 in pos or pos != sorted(pos):
+        P("gradient", f"clone {clone.attrib.get('id')}: gradientTransform is {flat[:200]!r}; it must apply the gradient's own transform, then unit-square->bounding-box, then the shape's CTM")
+    if "bbx1<" not in flat or "'xf'" in flat or bbox_marker not in flat:
+        P("gradient", f"clone {clone.attrib.get('id')}: the bounding box folded into the clone is not that of the referencing, untransformed shape ({bbox_marker})")
+    if clone.attrib.get("gradientUnits") != "userSpaceOnUse":
+        P("gradient", "clone of a bounding-box gradient is not switched to userSpaceOnUse")
+    if len([c for c in clone.children if c.local() == "stop"]) != stops:
+        P("gradient", "clone lost the stops of the original")
+
+
+def _check_doc2(root, P):
+    _grammar_facts(root, P)
+    shapes = [n for n in _paths_under(root) if n.parent is not None and n.parent.local() != "defs"]
+    pieces = {id(n): Piece(_geom(n)) for n in shapes}
+    def find(base_part):
+        return [n for n in shapes if base_part in pieces[id(n)].base_text()]
+    q1 = find("(1, 1)")
+    if not q1 or not any(pieces[id(n)].stroke is not None for n in q1):
+        P("clip", f"the stroked clipped path yields {len(q1)} pieces, none of them a stroke outline")
+    for n in q1:
+        pc = pieces[id(n)]
+        kinds = [clip_children(c) for c in pc.clips]
+        want = [[("SVGCircle", ("parse(tA)",))], [("SVGRect", ("parse(tA)",))]]
+        got = [[(("SVGCircle" if "SVGCircle" in k[0] else "SVGRect" if "SVGRect" in k[0] else k[0]), k[1]) for k in kk] for kk in kinds]
+        if got != want:
+            P("clip", f"a piece of q1 ({'stroke' if pc.stroke is not None else 'fill'}) is intersected with {got}; the cascade gives the group's clip then its own, both in q1's coordinate system: {want}")
+        if pc.clips and pc.order[-1:] != ["isect"]:
+            P("clip", f"q1: clip applied before {pc.order[-1]}")
+        if pc.app != ("parse(tA)",):
+            P("transform", f"a piece of q1 is transformed by {pc.app}; expected (parse(tA),)")
+    q2 = find("(3, 3)")
+    if len(q2) != 1:
+        P("clip", f"q2 yields {len(q2)} pieces")
+    for n in q2:
+        pc = pieces[id(n)]
+        got = [[(("SVGCircle" if "SVGCircle" in k[0] else "SVGRect" if "SVGRect" in k[0] else k[0]), k[1]) for k in clip_children(c)] for c in pc.clips]
+        want = [[("SVGCircle", ("parse(tA)",))], [("SVGRect", ("parse(tB)", "parse(tA)"))]]
+        if got != want:
+            P("clip", f"q2 is intersected with {got}; its own clip must be resolved in its own coordinate system (siblings share the clipPath but not the transform): {want}")
+        if pc.app != ("parse(tB)", "parse(tA)"):
+            P("transform", f"q2 is transformed by {pc.app}; expected (parse(tB), parse(tA))")
+    q3 = [n for n in shapes if n.attrib.get("id") == "q3"]
+    if len(q3) != 1 or Piece(_geom(q3[0])).clips:
+        P("clip", "a path with clip-path='none' is clipped or lost")
+    q4 = find("(7, 7)")
+    if len(q4) != 1:
+        P("clip", f"q4 yields {len(q4)} pieces")
+    for n in q4:
+        pc = pieces[id(n)]
+        kids = [clip_children(c) for c in pc.clips]
+        if len(kids) != 1 or len(kids[0]) != 1 or "(6, 8)" not in kids[0][0][0]:
+            P("clip", f"q4 (clipped by a four-sided polygon that is not a rectangle) is intersected with {kids}; expected exactly its clipPath's polygon")
+    order = []
+    for n in shapes:
+        pc = pieces[id(n)]
+        order.append("q1" if "(1, 1)" in pc.base_text() else "q2" if "(3, 3)" in pc.base_text() else "q4" if "(7, 7)" in pc.base_text() else "q3")
+    if [o for i, o in enumerate(order) if i == 0 or order[i - 1] != o] != ["q1", "q2", "q3", "q4"]:
+        P("document-order", f"shapes come out as {order}; document order is q1, q2, q3, q4")
+
+
+def _check_doc3(root, P):
+    defs = _grammar_facts(root, P)
+    shapes = {str(n.attrib.get("id")): n for n in _paths_under(root) if n.parent is not None and n.parent.local() != "defs"}
+    grads = {str(c.attrib.get("id")): c for c in (defs.children if defs is not None else [])}
+    fa = str(shapes["Ra"].attrib.get("fill", "")) if "Ra" in shapes else ""
+    fb = str(shapes["Rb"].attrib.get("fill", "")) if "Rb" in shapes else ""
+    if not fa or not fb:
+        P("gradient", "the transformed rects lost their identity or fill")
+        return
+    if fa == fb:
+        P("gradient", f"two shapes with different bounding boxes share one rewritten gradient ({fa}); an objectBoundingBox gradient must be rewritten per shape")
+    for f, marker in ((fa, "('x', '1')"), (fb, "('x', '5')")):
+        tgt = f[5:-1] if f.startswith("url(#") else None
+        if tgt == "g1":
+            P("gradient", "a transformed shape keeps referencing the untransformed gradient")
+        elif tgt in grads:
+            _check_clone(grads[tgt], "", "parse(tR)", marker, P, stops=2)
+    if "k1" not in shapes or str(shapes["k1"].attrib.get("fill")) != "url(#g3)" or "g3" not in grads:
+        P("refs", "a gradient referenced from inside a retained group (g3) was removed or its reference rewritten")
+    if "u" in shapes and str(shapes["u"].attrib.get("fill")) != "url(#g4)":
+        P("gradient", f"an untransformed shape had its gradient fill rewritten to {shapes['u'].attrib.get('fill')}: nothing to fold in, ids would drift on every pass")
+    if "g4" not in grads:
+        P("refs", "gradient g4 was removed although the untransformed shape u references it")
+    if "w" in shapes:
+        h1 = grads.get("h1")
+        if str(shapes["w"].attrib.get("fill")) != "url(#h1)" or h1 is None:
+            P("refs", "gradient h1 (which uses a template) was lost")
+        else:
+            if str(h1.attrib.get("x1")) not in ("0.1",) or str(h1.attrib.get("x2")) not in ("0.5",) or h1.attrib.get("gradientUnits") != "userSpaceOnUse":
+                P("gradient", f"template resolution: h1 has x1={h1.attrib.get('x1')} x2={h1.attrib.get('x2')} units={h1.attrib.get('gradientUnits')}; own x1=0.1 wins, x2=0.5 and userSpaceOnUse come from the template")
+            if len([c for c in h1.children if c.local() == "stop"]) != 1:
+                P("gradient", "template resolution: a gradient without stops must take the template's stops")
+    if "t0" in grads:
+        P("refs", "the template t0 stays in defs although no shape references it")
+
+
+_SIMPLIFY_SCENARIOS = [("scenario 1 (groups, clip, stroke, transformed gradient)", _simplify_doc, _check_doc1),
+                       ("scenario 2 (stacked and shared clips)", _simplify_doc2, _check_doc2),
+                       ("scenario 3 (gradient rewriting and references)", _simplify_doc3, _check_doc3)]
+
+
+def check_simplify(repo: Repo, rep: Report, rules: Dict[str, str]):
+    """rules: category -> rule id; categories: structure, transform, clip, stroke-order, stroke-args, gradient, refs, document-order"""
+    svg = repo["svg"]
+    F = "svg.SVG._simplify"
+    rep.saw(F, "svg.SVG._resolve_clip_path", "svg.SVG._transformed_gradient", "svg.SVG._apply_gradient_template", "svg.SVG._apply_gradient_translation",
+            "svg.SVG._remove_orphaned_gradients", "svg.SVG._add_to_defs", "svg.SVG._stroke", "svg.to_element", "svg.from_element", "svg._try_remove_group", "svg._inherit_attrib")
+    fn = svg.func("SVG._simplify")
+    probs: Dict[str, List[str]] = {k: [] for k in _CATS}
+    n_paths = 0
+    for title, doc, chk in _SIMPLIFY_SCENARIOS:
+        outs = run_simplify(repo, doc)
+        for o in outs:
+            n_paths += 1
+            if o.raised:
+                for k in probs:
+                    probs[k].append(f"{title}: _simplify raises {o.raised} ({o.raise_msg})")
+                continue
+            root = o.args[0].f["svg_root"]
+
+            def P(cat, msg, title=title):
+                probs[cat].append(f"{title}: {msg}")
+
+            chk(root, P)
+    what = {"structure": "output structure/attributes", "transform": "accumulated transform applied to every piece", "clip": "clip application",
+            "stroke-order": "stroke before transform", "stroke-args": "stroke parameters from the cascade", "gradient": "gradient rewriting for transformed shapes",
+            "refs": "ids and references", "document-order": "document order"}
     for k, rid in rules.items():
-        what = {"structure": "output structure/attributes", "transform": "accumulated transform applied to every piece", "clip": "clip application", "stroke-order": "stroke before transform",
-                "gradient": "gradient clone for a transformed shape", "refs": "ids and references", "document-order": "document order"}[k]
         if probs[k]:
             uniq = list(dict.fromkeys(probs[k]))
-            rep.fail(rid, F, f"{what} on the schematic document", f"{len(uniq)} deviations; first: {uniq[0]}", svg, fn)
+            rep.fail(rid, F, f"{what[k]} on the schematic documents", f"{len(uniq)} deviations; first: {uniq[0]}", svg, fn)
         else:
-            rep.ok(rid, F + f" [{what}]", f"schematic document ({len(els)} elements after simplification, {done} completed paths): as the grammar / SVG semantics require", True)
+            rep.ok(rid, F + f" [{what[k]}]", f"{len(_SIMPLIFY_SCENARIOS)} schematic documents, {n_paths} completed paths: as the grammar / SVG semantics require", True)
+
+
+# =========================================================================================== clip_to_viewbox
+def check_clip_to_viewbox(repo: Repo, rep: Report, rule: str):
+    """clip_to_viewbox on schematic documents with given bounding boxes: shapes outside vanish, shapes inside are
+    untouched, shapes straddling the border are intersected with the visible part of the view box under their own
+    fill-rule; order and paints unchanged."""
+    svg = repo["svg"]
+    F = "svg.SVG.clip_to_viewbox"
+    rep.saw(F, "geometric_types.Rect.intersection")
+    fn = svg.func("SVG.clip_to_viewbox")
+    probs: List[str] = []
+    n = 0
+    for vb, boxes, expect in [
+        ("0 0 10 10", {"in": (2, 2, 4, 4), "out": (20, 20, 30, 30), "cut": (5, 5, 15, 15), "left": (-5, 1, 5, 2), "exact": (0, 0, 10, 10)},
+         {"in": None, "cut": (5, 5, 5, 5), "left": (0, 1, 5, 1), "exact": None}),
+        ("-50 -50 100 100", {"in": (-40, -40, 40, 40), "cut": (40, 40, 60, 60), "out": (60, 0, 70, 10), "neg": (-60, -60, -40, -40)},
+         {"in": None, "cut": (40, 40, 10, 10), "neg": (-50, -50, 10, 10)}),
+    ]:
+        names = list(boxes)
+
+        def build(names=names, vb=vb):
+            kids = [El("path", {"d": pd(("M", (i, i)), ("L", (i, i + 1)), ("L", (i + 1, i)), ("Z", ())), "id": nm, "fill": f"c{i}",
+                                "fill-rule": "evenodd" if nm == "cut" else "nonzero"}, name=nm) for i, nm in enumerate(names)]
+            root = El("svg", {"viewBox": vb}, kids, name="root")
+            return ([make_svg(root)], {"inplace": True})
+
+        def extra(it, names=names, boxes=boxes):
+            def bbox(i, a, k):
+                r = repr(a[0])
+                for idx, nm in enumerate(names):
+                    if f"('M', ({idx}, {idx}))" in r:
+                        return boxes[nm]
+                raise Undecided("bounding box of an unknown shape")
+            it.hooks[("svg_pathops", "bounding_box")] = bbox
+
+        outs = ok_outcomes(run(repo, "SVG.clip_to_viewbox", build, setup_extra=extra), F)
+        for o in outs:
+            n += 1
+            if o.raised:
+                probs.append(f"viewBox {vb}: raises {o.raised} ({o.raise_msg})")
+                continue
+            root = o.args[0].f["svg_root"]
+            got = [c for c in root.children if isinstance(c.tag, str)]
+            ids = [str(c.attrib.get("id")) for c in got]
+            want_ids = [nm for nm in names if nm in expect]
+            if ids != want_ids:
+                probs.append(f"viewBox {vb}: shapes after clipping are {ids}; expected {want_ids} (fully outside ones dropped, order kept)")
+                continue
+            for c in got:
+                nm = str(c.attrib["id"])
+                pc = Piece(_geom(c))
+                idx = names.index(nm)
+                if str(c.attrib.get("fill")) != f"c{idx}":
+                    probs.append(f"viewBox {vb}: {nm} changed its paint")
+                if expect[nm] is None:
+                    if pc.clips:
+                        probs.append(f"viewBox {vb}: {nm} lies inside the view box but was clipped")
+                    continue
+                if len(pc.clips) != 1:
+                    probs.append(f"viewBox {vb}: {nm} (bbox {boxes[nm]}) straddles the border but is intersected with {len(pc.clips)} operands")
+                    continue
+                x, y, w, h = expect[nm]
+                ct = repr(pc.clips[0])
+                import re as _re
+                m = _re.search(r"\('M', \((-?[\d./]+), (-?[\d./]+)\)\), \('H', \((-?[\d./]+),\)\), \('V', \((-?[\d./]+),\)\)", ct)
+                if not m:
+                    probs.append(f"viewBox {vb}: {nm} is intersected with {ct[:160]}, which is not an axis-aligned rectangle path")
+                    continue
+                cx1, cy1, cx2, cy2 = (Fraction(v) for v in m.groups())
+                bx1, by1, bx2, by2 = boxes[nm]
+                eff = (max(cx1, bx1), max(cy1, by1), min(cx2, bx2), min(cy2, by2))
+                if eff != (x, y, x + w, y + h):
+                    probs.append(f"viewBox {vb}: {nm} (bbox {boxes[nm]}) is intersected with the rectangle {(cx1, cy1, cx2, cy2)}; within the shape's bounding box that "
+                                 f"selects {tuple(map(str, eff))}, the view box selects {(x, y, x + w, y + h)}")
+                exp_rule = "evenodd" if nm == "cut" else "nonzero"
+                if tuple(pc.rules) != (exp_rule, "nonzero"):
+                    probs.append(f"viewBox {vb}: {nm} is intersected under rules {tuple(pc.rules)}; the shape's fill-rule is {exp_rule}, the rectangle's clip-rule nonzero")
+                if str(c.attrib.get("fill-rule", "nonzero")) != "nonzero":
+                    probs.append(f"viewBox {vb}: clipped {nm} keeps fill-rule evenodd although Skia returns nonzero geometry")
+    if probs:
+        u = list(dict.fromkeys(probs))
+        rep.fail(rule, F, "clip_to_viewbox on schematic documents", f"{len(u)} deviations; first: {u[0]}", svg, fn)
+    else:
+        rep.ok(rule, F, f"2 view boxes (one with negative origin), 9 shapes by bounding box position, {n} paths: outside dropped, inside untouched, straddling intersected with the visible rectangle under (fill-rule, nonzero)", True)
